@@ -13,6 +13,10 @@
 (* place).  When the modification time is unchanged the documentation      *)
 (* ("refresh ... only if its modification time has changed") lets the old  *)
 (* content stay: then either content may be in force.                      *)
+(* The file may also DISAPPEAR (moved away, deleted): one refresh interval  *)
+(* later nobody is accepted - an htpasswd file that is not there contains  *)
+(* no credentials - every time it disappears, and when it comes back its   *)
+(* content is in force again under the same rules as for a replacement.    *)
 (* Nothing else is state: the verdict on an attempt       *)
 (* depends on that attempt and the content in force, never on earlier      *)
 (* attempts.                                                               *)
@@ -32,6 +36,8 @@ CONSTANTS
     SameConcat,   \* set of credential classes whose user and password run together to the same string
     FirstVersion,
     MTimes,       \* how the modification time of a replaced file relates to the loaded one: "newer" "older" "equal"
+    Gone,         \* the "content" of a file that is not there (Valid[Gone] = {})
+    WithRemoval,  \* whether histories contain the file disappearing
     MaxAttempts, MaxReloads,
     Memo          \* "none" | "pair" | "concat"
 
@@ -67,7 +73,15 @@ Reload(v, mt) ==
     /\ nrl' = nrl + 1
     /\ UNCHANGED <<verdicts, hits, nat>>
 
-Next == (\E c \in Creds : Attempt(c)) \/ (\E v \in Versions, mt \in MTimes : Reload(v, mt))
+\* the file disappears
+Remove ==
+    /\ WithRemoval /\ nrl < MaxReloads /\ nat < MaxAttempts /\ db # Gone
+    /\ db' = Gone /\ memo' = {} /\ live' = {Gone}
+    /\ hist' = Append(hist, Ev("remove", "", Gone, "", {Gone}))
+    /\ nrl' = nrl + 1
+    /\ UNCHANGED <<verdicts, hits, nat>>
+
+Next == (\E c \in Creds : Attempt(c)) \/ (\E v \in Versions, mt \in MTimes : Reload(v, mt)) \/ Remove
 Spec == Init /\ [][Next]_vars
 
 -----------------------------------------------------------------------------
